@@ -77,8 +77,8 @@ TrOpen ==
     /\ IsEvent("Open")
     /\ Ev.err = ""
     /\ LET B == Denote(Ev.ast, db)
-       IN /\ Range(Ev.cols) = Cols(Ev.ast, db)
-          /\ KeysOK(Ev.keys, B)
+       IN /\ B # {} => Range(Ev.cols) = Cols(Ev.ast, db)   \* (empty result: header of an inner query possible)
+          /\ KeysOK(Ev.keys, B, Cols(Ev.ast, db))
           /\ FixedOK(Ev.fixed, B)
           /\ base' = B
     /\ req' = [use |-> Ev.use, cols |-> Ev.ocols, rev |-> Ev.rev]
